@@ -184,7 +184,14 @@ def moon_decl(j):
 
 # ------------------------------------------------------------------ (I) position clauses
 def check_position(ctx, j, klass, names=None):
-    """Position clauses of the statement at one epoch (JDE j)."""
+    """Position clauses of the statement at one epoch (JDE j); an exception anywhere is a failure."""
+    try:
+        _check_position(ctx, j, klass, names)
+    except Exception as ex:  # noqa
+        ctx.predicate('position_total', False, [j], repr(ex), klass)
+
+
+def _check_position(ctx, j, klass, names=None):
     L = lib()
     Moon, Sun = L['Moon'], L['Sun']
     e = ep(j)
@@ -285,6 +292,14 @@ def tie_position(ctx, j, klass, full=True):
 # ------------------------------------------------------------------ (I) finder clauses
 def check_event(ctx, finder, target, q, klass):
     """The returned instant is an event of the position theory (tolerances of the statement)."""
+    try:
+        return _check_event(ctx, finder, target, q, klass)
+    except Exception as ex:  # noqa
+        ctx.predicate('finder_total', False, [q, finder, target], 'while checking the event: ' + repr(ex), klass)
+        return None
+
+
+def _check_event(ctx, finder, target, q, klass):
     L = lib()
     Moon, Sun = L['Moon'], L['Sun']
     inp = [q, finder, target]
@@ -363,7 +378,11 @@ def check_bad_targets(ctx, q):
     L = lib()
     Moon = L['Moon']
     e = ep(q)
-    yr = frac_year(e)
+    try:
+        yr = frac_year(e)
+    except Exception as ex:  # noqa
+        ctx.predicate('finder_total', False, [q, 'phase', 'new'], 'fractional year: ' + repr(ex), 'bad_target')
+        yr = None
     fns = {'phase': lambda t: Moon.moon_phase(e, t), 'apsis': lambda t: Moon.moon_perigee_apogee(e, t),
            'nodes': lambda t: Moon.moon_passage_nodes(e, t), 'decl': lambda t: Moon.moon_maximum_declination(e, t)}
     for finder, fn in fns.items():
@@ -373,7 +392,7 @@ def check_bad_targets(ctx, q):
                 continue
             out = run_impl(lambda: fn(t) and 0)
             ctx.predicate('bad_target_refused', out == 'E:ValueError', [q, finder, t], out, 'bad_target')
-            if '_' not in t:
+            if '_' not in t and yr is not None:
                 ctx.case(DRIVER_FN[finder], [yr, t], out, q=None, klass=DRIVER_FN[finder] + '/bad_target')
         for t in (None, 0, 1.5, b'new', ['new']):
             out = run_impl(lambda: fn(t) and 0)
